@@ -8,7 +8,8 @@ from vf.core import Part, Violation, call
 from vf.props import common
 
 PROPERTY = "C08"
-RULE = ("Hypothesis generates validated model DAG specs with constant-bounds leaves ((k,k), boolean and integer) and pre-fixed "
+RULE = ("Parts 'shapes*': EXHAUSTIVE enumeration of every single threshold node (all values/signs) alone and inside every connective, "
+        "with one of its leaves fixed by bounds. Part 'reduce': Hypothesis generates validated model DAG specs with constant-bounds leaves ((k,k), boolean and integer) and pre-fixed "
         "sub-propositions, optionally followed by assume(D) (leaf ints and sub-proposition 0/1 values) x ALL interpretations "
         "of the still-free leaves (enumerated up to the guard, else drawn). Oracles: reduce() result, evaluated by the reference "
         "arithmetic evaluator over the structure reduce() produced (and by puan's evaluate on a few points), equals the "
@@ -139,5 +140,12 @@ def check(case, ev):
     ev.case(case, has_const and (nt or removed_nonzero or neg_parent), cl)
 
 
+def shapes(slice_i, n):
+    """every small shape with one leaf fixed by its bounds (boolean a at 0 / 1, integer t at -2 / 0 / 2)"""
+    for spec in S.small_shapes(slice_i, n):
+        for leaf, val in (("a", 1), ("a", 0), ("t", -2), ("t", 2), ("b", 1)):
+            yield {"model": S.with_fixed_leaf(spec, leaf, val), "points": None, "dl": [], "dc": []}
+
+
 def parts(tier):
-    return [Part("reduce", strategy=lambda t: case_strategy(t), check=check, quick=(8, 350), thorough=(16, 2500))]
+    return [Part("shapes%d" % i, enumerate_cases=(lambda t, i=i: shapes(i, 6)), check=check, time_quick=120.0) for i in range(6)] + [Part("reduce", strategy=lambda t: case_strategy(t), check=check, quick=(8, 350), thorough=(16, 2500))]
